@@ -293,6 +293,8 @@ pub fn names() -> Vec<String> {
         "a\\b".into(),
         "n".repeat(255),
         "n".repeat(65535),
+        "w\\".into(),
+        "s/".into(),
     ]
 }
 pub fn times() -> Vec<(u16, u16)> {
@@ -342,7 +344,7 @@ pub fn entry_alphabet(seed: u64, size: usize) -> Vec<E> {
     let mut k = 0usize;
     while v.len() < size {
         let (m, l) = ml[k % ml.len()];
-        let name = &nm[k % 7];
+        let name = &nm[[0, 1, 2, 3, 4, 5, 6, 8, 9][k % 9]];
         let class = k % 5;
         let kind = if k % 11 == 10 { 1 } else if k % 13 == 12 { 2 } else { 0 };
         v.push(f(kind, name, class, if kind == 0 { m } else { 0 }, if kind == 0 { l } else { None }, [None, Some(0o777), Some(0o400)][k % 3], k % 4 == 3, t[k % t.len()]));
